@@ -180,7 +180,7 @@ func (ps *parser) fail(f string, a ...interface{}) {
 	panic(parseErr(fmt.Sprintf("parse error at %d: ", ps.peek().pos) + fmt.Sprintf(f, a...)))
 }
 func (ps *parser) peek() tok { return ps.toks[ps.p] }
-func (ps *parser) next() tok  { t := ps.toks[ps.p]; ps.p++; return t }
+func (ps *parser) next() tok { t := ps.toks[ps.p]; ps.p++; return t }
 func (ps *parser) isOp(s string) bool {
 	t := ps.peek()
 	return t.kind == "op" && t.text == s
